@@ -81,8 +81,12 @@ func C03_Middlewares() {
 	} else {
 		h = confirm.Middleware(f.w.AB)(next)
 	}
+	// the protected path: arbitrary, including every path the configuration names
+	ps := f.w.AB.Config.Paths
+	paths := []string{"/private", "/" + verif.String("path", 6), ps.ConfirmNotOK, ps.LockNotOK, ps.NotAuthorized, ps.Mount, ps.Mount + "/login", ps.AuthLoginOK, ps.RootURL}
+	method := []string{"GET", "POST", "HEAD"}[verif.Choice("method", 3)]
 	tb := time.Now().UTC()
-	_, panicked := f.serveHandler(h, "GET", "/private")
+	_, panicked := f.serveHandler(h, method, paths[verif.Choice("path", len(paths))])
 	if panicked {
 		return
 	}
